@@ -10,7 +10,10 @@ for f in glob.glob(os.path.join(VERIF, "selftest", "*", "*.json")):
     for s in json.load(open(f)):
         if s["id"] == sid:
             d = scratch_copy(os.environ.get("KRP_REPO", "/repo"))
-            for e in s["edits"]:
+            if s.get("patch"):
+                import subprocess
+                subprocess.run(["patch", "-p1", "-s", "-i", os.path.join(VERIF, "selftest", s["patch"])], cwd=d, check=True)
+            for e in s.get("edits", []):
                 p = os.path.join(d, e["file"])
                 t = open(p).read()
                 assert e["find"] in t, "precondition text not found in %s" % e["file"]
